@@ -430,6 +430,13 @@ ProposalWellFormed(e, j, cfg) ==
       /\ at.ts = m.ts /\ at.nonce = m.nonce /\ at.txs = m.txs
       /\ at.me = at.primary /\ m.v = at.v
 
+\* ... "and the primary's own block for the proposal is built from these same values": whatever the node signs (own Commit) or
+\* hands over (ProcessBlock) in a view whose proposal it broadcast itself carries that proposal's timestamp, nonce and transactions
+OwnProposals(e, j, h, v, me) == {p \in SentBefore(e, j) : p.t = "PrepareRequest" /\ p.h = h /\ p.v = v /\ p.from = me}
+OwnBlockIsProposal(e, j, b) ==
+  LET at == e.cb[j].at IN
+    \A p \in OwnProposals(e, j, at.h, at.v, at.me) : b.h = p.h => (b.ts = p.ts /\ b.nonce = p.nonce /\ b.txs = p.txs)
+
 \* C06 (the part visible in every state): the primary is (h - v) mod n
 PrimaryOK(s) == s.started => s.primary = (s.h - s.v) % s.n /\ s.n = Len(s.vals)
 
@@ -485,6 +492,7 @@ StepViolations(e, pre, cfg) ==
                           \cup P("C02", "CertProposal", CertProposal(e, j))
                           \cup P("C02", "CertBody", ~ReqStored(e.cb[j].at) \/ CertBody(e, j))
                           \cup P("C05", "OneDecision", OneDecision(e, j))
+                          \cup P("C15", "OwnBlockIsProposal", OwnBlockIsProposal(e, j, e.cb[j].block))
                           \cup P("C08", "DecidedInView0", DecidedInView0(e, j))
                           \cup P("C08", "SameBlockInSync", SameBlockInSync(e, j))
                           \cup ( IF SilentViewBound(e, j) THEN {}
@@ -503,6 +511,9 @@ StepViolations(e, pre, cfg) ==
                        \cup ( IF /\ e.cb[j].m.t = (IF e.cb[j].at.amev THEN "PreCommit" ELSE "Commit")
                                  /\ FirstLock(e, j)
                               THEN P("C04", "CommitEvidence", CommitEvidence(e, j)) ELSE {} )
+                       \cup ( IF /\ e.cb[j].m.t = "Commit" /\ e.cb[j].m.from = e.cb[j].at.me /\ e.cb[j].m.s = e.cb[j].at.vals[e.cb[j].at.me + 1]
+                                 /\ ~\E q \in EchoBase(e) : q.t = "Commit" /\ Body(q) = Body(e.cb[j].m)     \* not a Commit of an earlier incarnation
+                              THEN P("C15", "OwnBlockIsProposal", OwnBlockIsProposal(e, j, e.cb[j].m.b)) ELSE {} )
                        \cup ( IF e.cb[j].m.t = "Commit" /\ ~\E p \in SentBefore(e, j) : p.t = "Commit" /\ p.h = e.cb[j].at.h
                               THEN P("C07", "PhaseOrder", PhaseOrder(e, j)) ELSE {} )
                        : j \in Bcs(e) }
